@@ -601,6 +601,17 @@ theorem step_noCommon {st : St} (hi : Inv st) (hnc : NoCommon st.db.users) (op :
     intro u hu huid
     exact put_setUser_noCommon hi hnc { u with secure := b } true
       (recInv_put_same hi.recs ⟨u, hu, rfl, rfl⟩) (fun m hm => ⟨u, hu, rfl, hm⟩)
+  | followNick id old new =>
+    simp only [step]
+    apply withUser_noCommon hnc
+    intro u hu huid
+    split
+    · exact hnc
+    · split
+      · exact put_setUser_noCommon hi hnc { u with auth := followFirst old new (pruneScan st.db.timeout st.now old u.auth) } true
+          (recInv_put_same hi.recs ⟨u, hu, rfl, rfl⟩) (fun m hm => ⟨u, hu, rfl, hm⟩)
+      · exact put_setUser_noCommon hi hnc { u with auth := followAuth old new (pruneScan st.db.timeout st.now old u.auth) } true
+          (recInv_put_same hi.recs ⟨u, hu, rfl, rfl⟩) (fun m hm => ⟨u, hu, rfl, hm⟩)
   | clearHosts id =>
     simp only [step]
     apply withUser_noCommon hnc
